@@ -29,7 +29,7 @@ Import ListNotations.
 (* ------------------------------------------------------------------------------------------------ pipelines *)
 
 Inductive world := WF | WO | WT | WS | WSO.      (* Future, FutureOn, Task, SharedFuture, SharedFutureOn *)
-Inductive vty := VInt | VVoid.
+Inductive vty := VInt | VVoid | VHeavy.         (* VHeavy: a value type that owns heap memory (harness HeavyV) *)
 Inductive exec := XInline | XManual | XStrand | XStopped.
 Inductive res := RVal | RErr | RExc.             (* state of a Result *)
 Inductive pclass := PResult | PValue | PError | PExc | PNone | PUnit.   (* what the callback accepts *)
@@ -217,6 +217,51 @@ with eval_pipes (m : amode) (ps : pipes) : out :=
       | _, _ => let t := eval_pipes m r in mkOut (sites o ++ sites t) (calls o + calls t) (st t)
       end
   end.
+
+(* ---- payload copies.  With a value type V and an error type E that own heap memory, a COPY of the payload made by
+   the library is one more block for that step; a move is free.  On plain futures / tasks the code moves everywhere:
+   core.hpp Call() takes MoveOrConst<true>; CallResolveState forwards .Value() / .Error() / .Exception() of the rvalue
+   Result both when the callback is skipped and (since d85ca6f; before, the recovery branch read the failure through
+   Result::Internal(), an lvalue, and a callback taking the error by value received a copy) when a recovery callback
+   is invoked; Done() -> Store(std::forward); result_core.hpp SetInline -> Store(std::move(Get())); Get()/Touch() && move.
+   [ecopies] walks the program like [eval] and adds what each invoked callback's parameter costs. *)
+Definition error_param_copies (par : pclass) : nat := 0.   (* core.hpp:256-260 std::forward<Result>(r).Error() *)
+
+Fixpoint ecopies (ov : option exec) (p : pipe) : nat :=
+  match p with
+  | PReady _ _ _ | PContract _ _ _ _ _ | PProm _ _ _ _ _ _ => 0
+  | PRun _ e f => ecopies_fn f (if stopped (over ov e) then RErr else RVal)
+  | PCoro _ _ m ps _ => ecopies_pipes m ps
+  | PThen q a f | PDetach q a f =>
+      let o := eval ov q in
+      let s_in := match a with
+                  | AInline => st o
+                  | AOn e => if stopped e then RErr else st o
+                  | AInherit => if stopped (cur_exec ov q) then RErr else st o
+                  end in
+      ecopies ov q + ecopies_fn f s_in
+  | PStartOn q e => ecopies (Some e) q
+  | PDetach0 q | PToFuture q | POnNull q | PSplit q | PShare q _ => ecopies ov q
+  end
+with ecopies_fn (f : fn) (s : res) : nat :=
+  match f with
+  | Fn par _ _ b =>
+      if invoked par s then
+        error_param_copies par + match b with BAsync p => ecopies None p | _ => 0 end
+      else 0
+  end
+with ecopies_pipes (m : amode) (ps : pipes) : nat :=
+  match ps with
+  | PNil => 0
+  | PCons p r =>
+      match m, st (eval None p) with
+      | MCoAwait, (RErr | RExc) => ecopies None p
+      | _, _ => ecopies None p + ecopies_pipes m r
+      end
+  end.
+
+Definition error_copies (p : pipe) : nat := ecopies None p.
+Definition value_copies (p : pipe) : nat := 0.
 
 Definition blocks (l : list skind) : nat := fold_right (fun k a => site_blocks k + a) 0 l.
 Definition nsteps (l : list skind) : nat := length (filter is_step l).
